@@ -421,8 +421,25 @@ G = {
     proved; CPU-limit based hang verdict stays.
 """),
 }
-for pid in sys.argv[1:]:
-    g = G[pid]
+PASS2 = '''(SECOND PASS. An earlier sub-task already worked on this list in this round: read the section "## Deepen round 3" of
+ notes/{PID}.md first — it says which goals are done, which are partly done and what is still not covered. Do NOT redo what
+ is done. Take, in this order: (i) the extra items listed under EXTRA below, if any; (ii) the goals of the list below that the
+ notes report as not started or only partly done; (iii) the notes' own "still not covered" / "unfinished" list. /repo has moved
+ on since (many new `fix:` commits): make your worktree from the current HEAD and expect the check to be green on it before
+ you change anything — if it is not, that is your first job. Write your section as "## Deepen round 3, second pass".)
+ EXTRA: {EXTRA}
+'''
+args = [a for a in sys.argv[1:] if not a.startswith('--')]
+pass2 = '--pass2' in sys.argv
+extra = {}
+for a in sys.argv[1:]:
+    if a.startswith('--extra='):
+        k, v = a[len('--extra='):].split(':', 1)
+        extra[k] = open(v).read().strip() if os.path.exists(v) else v
+for pid in args:
+    g = dict(G[pid])
+    if pass2:
+        g['goals'] = PASS2.replace('{PID}', pid).replace('{EXTRA}', extra.get(pid, '(none)')) + g['goals']
     s = T.replace('{PID}', pid).replace('{CMD}', g['cmd']).replace('{HOURS}', str(g['hours'])).replace('{GOALS}', g['goals'].strip('\n')).replace('{{', '{').replace('}}', '}')
     os.makedirs('/root/deepen', exist_ok=True)
     open('/root/deepen/%s.txt' % pid, 'w').write(s)
